@@ -19,6 +19,7 @@ import plan as PLAN  # noqa: E402
 from vlib import kani as K  # noqa: E402
 from vlib import replay as RP  # noqa: E402
 from vlib import claims as CL  # noqa: E402
+from vlib import smt as SMT  # noqa: E402
 
 MEM_BUDGET_GB = 52
 DEFAULT_JOBS = 16
@@ -55,6 +56,13 @@ class Sched:
 
 
 def run_one(h, scratch, logdir, sched, tier):
+    if h.crate == "smt":
+        exp = getattr(h, "exp_gb", 3)
+        sched.acquire(exp)
+        try:
+            return SMT.run_smt(h, scratch, logdir, tier)
+        finally:
+            sched.release(exp)
     crate_rel, _pkg = K.CRATES[h.crate]
     crate_dir = os.path.join(scratch, crate_rel)
     target = os.path.join(scratch, "target-" + h.crate)
@@ -124,7 +132,7 @@ def warm_up(hs, scratch, logdir):
     """Build dependencies once per crate so that the parallel runs only recompile the top crate."""
     seen = set()
     for h in hs:
-        if h.crate in seen:
+        if h.crate in seen or h.crate == "smt":
             continue
         seen.add(h.crate)
         crate_rel, _ = K.CRATES[h.crate]
@@ -242,7 +250,7 @@ def main():
     # replay every counterexample natively before reporting it
     confirmed = []
     for h, r in violations:
-        rep = RP.replay_counterexample(h, r, scratch, prop, logdir)
+        rep = (SMT if h.crate == "smt" else RP).replay_counterexample(h, r, scratch, prop, logdir)
         r["replay"] = rep
         if rep["reproduced"] or rep.get("ub_only"):
             confirmed.append((h, r, rep))
